@@ -106,6 +106,19 @@ def run(tier, seed):
         specs.append({'panel': panel, 'elig': None,
                       'par': {'budget_mult': mult, 'n_test': 7, 'iroas': 1.0,
                               'n_designs': 50}})
+  # truncation family: panels twice as long as n_pretest_max in which one
+  # geo was volatile only in the discarded early half; with a budget maximum
+  # the screening of single geos must use the truncated window
+  trng = np.random.default_rng([int(seed), 44])
+  for n in ((4, 5) if quick else (4, 5, 6)):
+    for panel in sl.panel_specs(n, trng, 4 if quick else 8, n_days=(40,)):
+      for g in (0, 1, n - 1):
+        for mult in ([0.0, 1.5], [0.0, 3.0]):
+          specs.append({'panel': dict(panel, early_bump=g, missing=0),
+                        'elig': None,
+                        'par': {'budget_mult': mult, 'n_test': 7,
+                                'iroas': 1.0, 'n_designs': 50,
+                                'n_pretest_max': 20}})
   res = base.MonitorResult(
       'C03: eligibility multisets over <=%d geos, seeded tables up to %d geos '
       'and no-eligibility cases x seeded panels x parameter objects (k = '
@@ -115,7 +128,9 @@ def run(tier, seed):
       'optimistic budget screen may drop, nothing omitted scores strictly '
       'higher than the worst returned, and (no exemptions) equal score '
       'multisets; plus a pruning family (4-%d free geos, budget maximum '
-      '1.2/1.6/2.2 x the median single-geo budget, k = 50). non-trivial = at '
+      '1.2/1.6/2.2 x the median single-geo budget, k = 50) and a truncation '
+      'family (40-day panels with n_pretest_max = 20, one geo volatile only '
+      'in the discarded half, budget maximum 1.5/3 x median). non-trivial = at '
       'least one design returned; distinct = case spec' % (
           ((3, 5) if quick else (4, 6)) + ((5 if quick else 6),)))
   res.bound = 'n_geos <= %d, %d cases' % (5 if quick else 6, len(specs))
